@@ -419,6 +419,10 @@ Definition run_ws_otel (tracer : bool) (c : cfg) (rq : request) (fs : list frame
     let '(evs, p) := run_from rq AwaitAck fs in
     {| t_connect := connect_of c; t_events := ESend (init_msg c) :: evs; t_fin := finish p; t_spans := [] |}.
 
+(* the message text of the invalid-message error is not part of the property *)
+Definition erase_msg (o : outcome) : outcome :=
+  match o with RaisedInvalid _ => RaisedInvalid None | o => o end.
+
 (* the observable part of a trace that the plain and OpenTelemetry clients must share *)
 Definition strip_spans (t : trace) : trace :=
   {| t_connect := t_connect t; t_events := t_events t; t_fin := t_fin t; t_spans := [] |}.
@@ -489,8 +493,7 @@ Definition spec_ws (c : cfg) (rq : request) (fs : list frame) : trace :=
                   | Some m => let '(e, o) := spec_stream r in (ERecv :: ESend m :: e, o)
                   | None => ([ERecv], RaisedOther "TypeError")   (* not serialisable at all *)
                   end
-        | SMalformed => ([ERecv], RaisedInvalid (Some f))
-        | _ => ([ERecv], RaisedInvalid None)
+        | _ => ([ERecv], RaisedInvalid None)     (* which message text: not specified *)
         end
     end in
   {| t_connect := connect_of c; t_events := ESend (init_msg c) :: evs; t_fin := o; t_spans := [] |}.
